@@ -85,6 +85,7 @@ package align
 //@ table blosum62_subst_matrix C09
 //@ table dna_to_matrix_pos C09
 //@ table prot_to_matrix_pos C09
+//@ table iupacToInt C09
 
 
 // t is a copy of s in separate fresh memory
@@ -99,6 +100,13 @@ package align
 // the substitution matrix is symmetric (and its cells are finite numbers)
 //@ pure func subsym(a *pwaligner) bool = a.submatrix != nil ==> forall i, j :: 0 <= i && i < len(a.submatrix) && 0 <= j && j < len(a.submatrix) ==> isfin(a.submatrix[i][j]) && fin(a.submatrix[i][j]) == fin(a.submatrix[j][i])
 
+// consistency of the nucleotide tables with the IUPAC meaning of the ambiguity codes (table iupacToInt: bit sets over A,C,G,T):
+// when the aligner uses the nucleotide index map, a plain nucleotide x scores more than the mismatch score -4 against a
+// code y exactly when x is one of the nucleotides y stands for (an index map listing two ambiguity codes in each other's
+// position, or a matrix column in the wrong place, fails this)
+//@ pure func c9t_plain(x int) bool = x == 'A' || x == 'C' || x == 'G' || x == 'T'
+//@ pure func c9t_code(y int) bool = y == 'A' || y == 'C' || y == 'G' || y == 'T' || y == 'S' || y == 'W' || y == 'R' || y == 'Y' || y == 'K' || y == 'M' || y == 'B' || y == 'V' || y == 'H' || y == 'D' || y == 'N'
+//@ pure func c9t_iupac(a *pwaligner) bool = forall x, y :: c9t_plain(x) && c9t_code(y) ==> has(a.chartopos, x) && has(a.chartopos, y) && (((iupacToInt[x] & iupacToInt[y]) > 0) == (fin(a.submatrix[a.chartopos[x]][a.chartopos[y]]) > 0.0 - 4.0))
 //@ func NewPwAligner
 //@   props C09 C19
 //@   float xreal
@@ -109,6 +117,7 @@ package align
 //@   ensures result.algo == algo && result.length == 0 && result.nbgaps == 0 && result.nbmatches == 0 && result.nbmismatches == 0 && result.maxi == 0 && result.maxj == 0
 //@   ensures isfin(result.maxscore) && fin(result.maxscore) == 0.0 && isfin(result.gapopen) && fin(result.gapopen) == -10.0 && isfin(result.gapextend) && fin(result.gapextend) == -0.5 && isfin(result.match) && fin(result.match) == 1.0 && isfin(result.mismatch) && fin(result.mismatch) == -1.0
 //@   ensures (result.submatrix == nil) == (result.chartopos == nil)
+//@   ensures result.chartopos != nil && has(result.chartopos, 'U') ==> c9t_iupac(result)
 //@   modifies nothing
 
 // ---- the two algorithm switches and the public entry point ----
